@@ -136,6 +136,21 @@ def streams(tier, rng, P, only=None, cases=None):
                         if not src.endswith((" ", "\n")): src += " "
                         v = rng.randint(0, 99); exp.append("[PRINT](%d) %d" % (src.count("\n"), v)); src += "PRINT(%d); " % v
                 cs.append(dict(req="run " + hx(src), src=src, show=src[:300], kind="print", exp=exp, key="m%d" % i))
+            elif k < 0.18:
+                # a PRINT whose argument list runs over several lines carries the line of the statement
+                lines = valid_lines(rng); exp = []
+                for li in range(len(lines)):
+                    if rng.random() < 0.6:
+                        v = rng.randint(0, 99)
+                        form = rng.choice(["PRINT(/* a\nb */ %d);", "PRINT(%d /* a\nb\nc */);", "PRINT({%d\nzz});", "PRINT(/* a\n\nb */ %d /* c\nd */);"]) % v
+                        lines[li].append(form); exp.append((li, v))
+                src = ""; out = []; ln = 0
+                for li, l in enumerate(lines):
+                    for t in l:
+                        if t.startswith("PRINT("): out.append("[PRINT](%d) %d" % (ln, [e for e in exp if e[0] == li][-1][1]))
+                        src += t + " "; ln += t.count("\n")
+                    src += "\n"; ln += 1
+                cs.append(dict(req="run " + hx(src), src=src, show=src[:300], kind="print", exp=out, key="m%d" % i))
             elif k < 0.22:
                 # statements that run again after control has been on later lines: loops and FOR bodies spanning lines, a function defined below its call
                 lead = rng.choice([0, 0, 1, 2]); form = rng.choice(["loop", "for", "func"]); reps = rng.randint(1, 3)
